@@ -9,15 +9,18 @@
 (* placed call must have produced exactly the results the reference model  *)
 (* (Txn.tla) computes on the current database, and, if it changed what a   *)
 (* monitor watches, the monitor's next message must be the difference it   *)
-(* made.  The trace is accepted iff some order places every call, consumes *)
-(* every message and ends in the recorded final database.                  *)
+(* made.  A monitor established while the clients run joins the order at   *)
+(* one point between its request and its reply: its initial contents are   *)
+(* the database there, its messages the changes made afterwards.  The      *)
+(* trace is accepted iff some order places every call, joins every         *)
+(* monitor, consumes every message and ends in the recorded final database.*)
 (***************************************************************************)
 EXTENDS Monitor
 
 Traces == ndJsonDeserialize("trace.ndjson")
 
-VARIABLES ti, db, placed, mpos, done
-vars == <<ti, db, placed, mpos, done>>
+VARIABLES ti, db, placed, mpos, joined, done
+vars == <<ti, db, placed, mpos, joined, done>>
 
 RowJ(t, jrow) == [c \in Cols(t) |->
                     IF c \in DOMAIN jrow THEN ValJ(Col(t, c), jrow[c]) ELSE Default(Col(t, c))]
@@ -33,8 +36,10 @@ ResJ(t, r) ==
 T == Traces[ti]
 Calls == T.calls
 
-\* real-time order: c may be placed next only if no unplaced call returned before c was invoked
-MayGoNext(c) == \A d \in DOMAIN Calls \ placed : d # c => ~(Calls[d].ret < Calls[c].inv)
+\* real-time order: c may be placed next only if no unplaced call returned before c was invoked - and no
+\* monitor that is still to join had its reply before c was invoked
+MayGoNext(c) == /\ \A d \in DOMAIN Calls \ placed : d # c => ~(Calls[d].ret < Calls[c].inv)
+                /\ \A i \in DOMAIN T.mons : ~joined[i] => ~(T.mons[i].ret < Calls[c].inv)
 
 \* a committed call must have the results of the reference model on the
 \* current database; a failed call left the database as it was (whether the
@@ -51,7 +56,18 @@ Init == /\ ti \in DOMAIN Traces
         /\ db = DbJ(Traces[ti].init)
         /\ placed = {}
         /\ mpos = [i \in DOMAIN Traces[ti].mons |-> 0]
+        /\ joined = [i \in DOMAIN Traces[ti].mons |-> ~Traces[ti].mons[i].late]
         /\ done = FALSE
+
+\* a monitor established while the clients run joins the order at one point: every call that returned before
+\* the monitor request was sent has been placed, and what the reply reported is the database at that point
+\* (these monitors watch every table and column)
+Join(i) ==
+    /\ ~joined[i]
+    /\ \A d \in DOMAIN Calls \ placed : ~(Calls[d].ret < T.mons[i].inv)
+    /\ DbJ(T.mons[i].init) = db
+    /\ joined' = [joined EXCEPT ![i] = TRUE]
+    /\ UNCHANGED <<ti, db, placed, mpos, done>>
 
 Place(c) ==
     /\ c \notin placed /\ MayGoNext(c)
@@ -61,23 +77,23 @@ Place(c) ==
        IN  /\ ResultsAgree(call, r)
            /\ db' = post
            /\ \A i \in DOMAIN T.mons :
-                IF Concerns(T.mons[i], db, post)
+                IF joined[i] /\ Concerns(T.mons[i], db, post)
                 THEN /\ mpos[i] < Len(T.mons[i].msgs)
                      /\ MsgOK(T.mons[i], db, post, T.mons[i].msgs[mpos[i] + 1].tu)
                 ELSE TRUE
-           /\ mpos' = [i \in DOMAIN T.mons |-> IF Concerns(T.mons[i], db, post) THEN mpos[i] + 1 ELSE mpos[i]]
+           /\ mpos' = [i \in DOMAIN T.mons |-> IF joined[i] /\ Concerns(T.mons[i], db, post) THEN mpos[i] + 1 ELSE mpos[i]]
     /\ placed' = placed \cup {c}
-    /\ UNCHANGED <<ti, done>>
+    /\ UNCHANGED <<ti, joined, done>>
 
 Finish ==
     /\ ~done /\ placed = DOMAIN Calls
-    /\ \A i \in DOMAIN T.mons : mpos[i] = Len(T.mons[i].msgs)
+    /\ \A i \in DOMAIN T.mons : joined[i] /\ mpos[i] = Len(T.mons[i].msgs)
     /\ db = DbJ(T.final)
     /\ PrintT(<<"ACCEPTED", ti>>)
     /\ done' = TRUE
-    /\ UNCHANGED <<ti, db, placed, mpos>>
+    /\ UNCHANGED <<ti, db, placed, mpos, joined>>
 
-Next == (\E c \in DOMAIN Calls : Place(c)) \/ Finish
+Next == (\E c \in DOMAIN Calls : Place(c)) \/ (\E i \in DOMAIN T.mons : Join(i)) \/ Finish
 
 Spec == Init /\ [][Next]_vars
 
